@@ -308,8 +308,8 @@ def gate(check, case, cls, sig):
 
 # ------------------------------------------------------------------------------------------- main driver
 # Number of cases of the quick tier per property (about one minute on 16 idle cores of the development sandbox); thorough = 10x.
-QUICK_CASES = {'C01': 3300, 'C02': 3000, 'C03': 3200, 'C04': 2300, 'C05': 1000, 'C06': 2600, 'C07': 2600, 'C08': 1100, 'C09': 1000, 'C10': 2600,
-               'C11': 3600, 'C12': 3500, 'C13': 2500, 'C18': 1200, 'C19': 2000, 'C20': 850, 'C21': 3500, 'C22': 3400, 'C23': 550, 'C24': 350,
+QUICK_CASES = {'C01': 3300, 'C02': 3000, 'C03': 3200, 'C04': 2300, 'C05': 1000, 'C06': 2000, 'C07': 2200, 'C08': 1100, 'C09': 1000, 'C10': 2600,
+               'C11': 3600, 'C12': 3500, 'C13': 2500, 'C18': 1200, 'C19': 2000, 'C20': 850, 'C21': 3000, 'C22': 3400, 'C23': 550, 'C24': 350,
                'C25': 1100, 'C26': 4900, 'C30': 4600}
 THOROUGH_FACTOR = 10
 
